@@ -144,6 +144,14 @@ CHECKS = {
         "Backend 5x5 flag x config matrix (which scheduler's commands are issued), verbosity 4x4 (debug/info lines), colour 3x3x2 under a real pty; namespace isolation: each of 11 look-alike keys alone and all together for each backend (Slurm log mode -> directives, accounting -> sacct calls, local host/port -> connect target).",
         note="No scheduler installed: guessed default = local. Colour needs a tty: 18 fresh processes under pty.openpty().",
     ),
+    "C10": dict(
+        level="exploration", design="§4 C10",
+        technique="bounded-exhaustive enumeration of option-source combinations read back by an independent directive reader, and of spec texts x directory names x backends whose generated scripts are really executed with bash and compared with a reference execution",
+        text="Options: for every known option of slurm (11), sge (5), lsf (3): all 64 combinations of {absent, value1, value2, None} at workflow default / template / keyword + an unknown option at each source + 25 SGE memory x cores combinations; the script captured on the simulated sbatch/qsub/bsub stdin must carry exactly the resolved value, no directive twice, no placeholder, None => absent, unknown => dropped with a warning. "
+        "Execution: every spec of <=3 (thorough 4) lines over a 7-line alphabet (redirections, quotes and $, printf with braces and %, false, exit 3, heredoc, stderr), with and without trailing newline, on 5 backend/log modes, plus 12 directory names with shell metacharacters: the script is run with bash from a foreign cwd with stdout/stderr routed per its directives and must produce the same files, exit status and captured output as `cd <wd> && bash -e` of the bare spec; `gwf logs` prints those bytes. "
+        "Log cleaning: subsets of 8 log files x target sets x clean_logs unset/on/off x dry-run.",
+        note="The spec space is bounded by the line alphabet; the scheduler's way of starting the script is an assumption (bash, foreign cwd, output files from the directives).",
+    ),
 }
 
 PENDING = {
